@@ -885,11 +885,15 @@ def stream_once_cluster_randref(rng):
     Before /repo fix 0aad1fc a continued run re-saved such rows skipping every bare id already seen."""
     r, feats = stream_once_cluster(rng)
     onces = [s[1] for s in r["stmts"] if s[0] == "obj" and s[1]["once"]]
+    for s in r["stmts"]:            # a hidden field whose value is a function of the visible f0: __h0 = f0 + 90
+        if s[0] == "obj" and any(f == "f0" and d[0] == "int" for f, d in s[1]["fields"]):
+            f0 = next(d[1] for f, d in s[1]["fields"] if f == "f0")
+            s[1]["fields"].append(["__h0", ["int", f0 + 90]])
     fields = []
     for q, t in enumerate(rng.sample(onces, k=min(len(onces), rng.randint(1, 2)))):
         nm = t["nick"] if (t["nick"] and rng.random() < 0.4) else t["table"]
         fields.append(("p%d" % q, ["randref", nm]))
-        fields.append(("q%d" % q, _F(["e", ["attr", ["var", "p%d" % q], rng.choice(["f0", "f1", "id"])]])))
+        fields.append(("q%d" % q, _F(["e", ["attr", ["var", "p%d" % q], rng.choice(["f0", "f1", "id", "__h0", "__h0"])]])))
     r["stmts"].append(["obj", _T("E", None, False, fields, count=rng.choice([None, ["int", 2]]))])
     r["raw"] = [rng.randint(0, 10 ** 6) for _ in range(60)]
     r["bias"] = rng.choice(["lo", "hi", "mix", "mix"])
@@ -951,3 +955,87 @@ def stream_first_statement_names(rng):
         stmts.append(["obj", _T("D", None, False, [("back", ["ref", name]), ("a", ["ref", "A"])])])
     return {"version": rng.choice([2, 3]), "options": [], "stmts": stmts}, \
         ["first_statement_names", "forward_ref", "var_top"] + (["nick"] if nick else [])
+
+
+def stream_hidden_table_nicks(rng):
+    """templates of a hidden table with nicknames declared at top level, in friends and nested in a
+    field, used from visible rows through `reference`, dotted reads, formulas and random_reference (by
+    nickname and by the hidden table's name): everything must behave as for a visible table"""
+    ht = rng.choice([HIDDEN_TABLE, HIDDEN_TABLE, "__K"])
+    where = rng.choice(["top", "friend", "nested", "friend", "nested"])
+    nk = rng.choice(["hh", "kid", "aa"])
+    tpl = _T(ht, nk, False, [("v", ["int", rng.choice([3, 8])]), ("w", ["str", rng.choice(WORDS)])],
+             count=rng.choice([None, ["int", 2]]))
+    stmts = []
+    if where == "top":
+        stmts.append(["obj", tpl])
+    elif where == "friend":
+        stmts.append(["obj", _T("W", None, False, [("w0", ["int", 1])], friends=[["obj", tpl]])])
+    else:
+        stmts.append(["obj", _T("W", None, False, [("w0", ["int", 1]), ("__c", ["nested", tpl]), ("w1", _F(["e", ["attr", ["var", "__c"], "v"]]))])])
+    fields = []
+    uses = rng.sample(["ref_nick", "ref_table", "attr", "rr_nick", "rr_table"], rng.randint(2, 4))
+    for q, u in enumerate(uses):
+        if u == "ref_nick":
+            fields.append(("a%d" % q, _F(["e", ["attr", ["var", nk], "v"]])))
+        elif u == "ref_table" and ht.replace("_", "a").isalnum():
+            fields.append(("b%d" % q, _F(["e", ["attr", ["var", ht], "id"]])))
+        elif u == "attr":
+            fields.append(("__r%d" % q, ["ref", nk]))
+            fields.append(("c%d" % q, _F(["e", ["attr", ["var", "__r%d" % q], "v"]])))
+        elif u == "rr_nick":
+            fields.append(("__p%d" % q, ["randref", nk]))
+            fields.append(("d%d" % q, _F(["e", ["attr", ["var", "__p%d" % q], "id"]])))
+        elif u == "rr_table":
+            fields.append(("__q%d" % q, ["randref", ht]))
+            fields.append(("e%d" % q, _F(["e", ["attr", ["var", "__q%d" % q], "id"]])))
+    stmts.append(["obj", _T("P", None, False, fields, count=["int", rng.randint(1, 2)])])
+    return {"version": rng.choice([2, 3]), "options": [], "stmts": stmts,
+            "raw": [rng.randint(0, 10 ** 6) for _ in range(60)], "bias": rng.choice(["lo", "hi", "mix"])}, \
+        ["hidden_table", "nick", "hidden_field", "hidden_table_nicks"] + (["random_reference"] if any(u.startswith("rr") for u in uses) else [])
+
+
+def stream_once_same_table_nick_order(rng):
+    """two or three just_once templates on ONE table, each with its own nickname, the nicknames in every
+    alphabetical order relative to their creation order (a continuation file sorts its keys), plus
+    readers by table name (the LAST created row), by each nickname and through formulas; to be run over
+    continuation chains"""
+    pool = [["zurich", "athens"], ["athens", "zurich"], ["mm", "aa", "zz"], ["zz", "mm", "aa"], ["b2", "b10"], ["Zed", "alpha"]]
+    nicks = rng.choice(pool)
+    tb = rng.choice(["A", "B"])
+    stmts = []
+    for j, nk in enumerate(nicks):
+        stmts.append(["obj", _T(tb, nk, True, [("f0", ["int", 10 + j]), ("f1", ["str", nk])],
+                              count=(["int", 2] if rng.random() < 0.15 else None))])
+    if rng.random() < 0.3:          # an un-nicknamed just_once template of the same table, somewhere
+        stmts.insert(rng.randint(0, len(stmts)), ["obj", _T(tb, None, True, [("f0", ["int", 77]), ("f1", ["str", "plain"])])])
+    fields = [("t", ["ref", tb]), ("tv", _F(["e", ["attr", ["var", tb], "f0"]])), ("ts", _F(["t", "s"], ["e", ["attr", ["var", tb], "f1"]]))]
+    for q, nk in enumerate(nicks):
+        fields.append(("n%d" % q, ["ref", nk]))
+        fields.append(("v%d" % q, _F(["e", ["attr", ["var", nk], "f0"]])))
+    stmts.append(["obj", _T("C", None, False, fields)])
+    return {"version": rng.choice([2, 3]), "options": [], "stmts": stmts}, ["just_once", "nick", "once_cluster", "once_nick_order"]
+
+
+def stream_history_rows_hold_once_refs(rng):
+    """rows that go into the row history (their table is a random_reference target) and that hold
+    references to just_once rows (restored from the continuation file in a continued run), to ordinary
+    rows and to nested rows; pickers by table name and by nickname; to be run over continuation chains"""
+    once = _T("C", rng.choice(["co", None]), True, [("f0", ["int", 5]), ("f1", ["str", "hq"])])
+    oname = once["nick"] or "C"
+    pfields = [("boss", ["ref", oname]), ("f0", _F(["e", ["attr", ["var", oname], "f0"]]))]
+    if rng.random() < 0.5:
+        pfields.append(("kid", ["nested", _T("K", None, False, [("k", ["int", 1])])]))
+    pn = rng.choice(["pp", None])
+    person = _T("P", pn, False, pfields, count=rng.choice([None, ["int", 2]]))
+    picker_fields = [("who", ["randref", "P"])]
+    if pn and rng.random() < 0.6:
+        picker_fields.append(("who2", ["randref", pn]))
+    if rng.random() < 0.5:
+        picker_fields.append(("wid", _F(["e", ["attr", ["var", "who"], "id"]])))
+    stmts = [["obj", once], ["obj", person], ["obj", _T("D", None, False, picker_fields, count=rng.choice([None, ["int", 2]]))]]
+    if rng.random() < 0.3:
+        stmts.append(["obj", _T("P", None, False, [("boss", ["ref", oname])])])
+    return {"version": rng.choice([2, 3]), "options": [], "stmts": stmts,
+            "raw": [rng.randint(0, 10 ** 6) for _ in range(60)], "bias": rng.choice(["lo", "hi", "mix", "mix"])}, \
+        ["just_once", "random_reference", "history_rows_hold_once_refs"] + (["nick"] if (pn or once["nick"]) else [])
